@@ -45,6 +45,28 @@ mod model_tests {
 pub mod proofs {
     use super::*;
 
+    /// Up to four separate name buffers. NOTE: a nested `[[u8; 2]; K]` must not be used here: Kani 0.68 mis-models
+    /// slices of rows >= 1 of nested byte arrays (measured: `&n[1][..]` reads other memory than `n[1][0]`).
+    pub struct Names {
+        r0: [u8; 2],
+        r1: [u8; 2],
+        r2: [u8; 2],
+        r3: [u8; 2],
+    }
+    impl Names {
+        pub fn any() -> Self {
+            Names { r0: kani::any(), r1: kani::any(), r2: kani::any(), r3: kani::any() }
+        }
+        pub fn row(&self, i: usize) -> &[u8; 2] {
+            match i {
+                0 => &self.r0,
+                1 => &self.r1,
+                2 => &self.r2,
+                _ => &self.r3,
+            }
+        }
+    }
+
     fn valid_name<const N: usize>(n: &[u8; N]) -> bool {
         let mut ok = true;
         let mut i = 0;
@@ -74,9 +96,9 @@ pub mod proofs {
         assert!(o1.cmp(&o2) == want, "Entry order equals git's base_name_compare");
         std::mem::forget(o1);
         std::mem::forget(o2);
-        kani::cover!(want == Ordering::Equal && m1 != m2, "equal across different non-tree modes");
-        kani::cover!(want == Ordering::Less && s_isdir(m1) && A < B, "directory sorts by implicit slash");
-        kani::cover!(want == Ordering::Greater && s_isdir(m1) && A <= B, "directory after file with smaller next byte");
+        kani::cover!(A != B || (want == Ordering::Equal && m1 != m2), "equal across different non-tree modes");
+        kani::cover!(A >= B || (want == Ordering::Less && s_isdir(m1)), "directory sorts by implicit slash");
+        kani::cover!(A > B || (want == Ordering::Greater && s_isdir(m1)), "directory after file with smaller next byte");
     }
 
     macro_rules! cmp_instances {
@@ -104,13 +126,13 @@ pub mod proofs {
     #[kani::proof]
     #[kani::unwind(5)]
     pub fn c03_order_transitive() {
-        let n: [[u8; 2]; 3] = kani::any();
+        let n = Names::any();
         let l: [usize; 3] = kani::any();
         let m: [u16; 3] = kani::any();
         kani::assume(l[0] >= 1 && l[0] <= 2 && l[1] >= 1 && l[1] <= 2 && l[2] >= 1 && l[2] <= 2);
-        kani::assume(valid_name(&n[0]) && valid_name(&n[1]) && valid_name(&n[2]));
+        kani::assume(valid_name(n.row(0)) && valid_name(n.row(1)) && valid_name(n.row(2)));
         let id = ObjectId::null(gix_hash::Kind::Sha1);
-        let e = |i: usize| tree::EntryRef { mode: tree::EntryMode(m[i]), filename: n[i][..l[i]].as_bstr(), oid: &id };
+        let e = |i: usize| tree::EntryRef { mode: tree::EntryMode(m[i]), filename: n.row(i)[..l[i]].as_bstr(), oid: &id };
         let (a, b, c) = (e(0), e(1), e(2));
         if a.cmp(&b) != Ordering::Greater && b.cmp(&c) != Ordering::Greater {
             assert!(a.cmp(&c) != Ordering::Greater);
@@ -124,21 +146,21 @@ pub mod proofs {
     /// `TreeRef::bisect_entry(name, is_dir)` on K entries sorted in git order: finds an entry exactly
     /// when a linear scan finds one with that name and that directory-ness, and returns that entry.
     pub fn bisect<const K: usize>() {
-        let n: [[u8; 2]; K] = kani::any();
+        let n = Names::any();
         let l: [usize; K] = kani::any();
         let m: [u16; K] = kani::any();
         let id = ObjectId::null(gix_hash::Kind::Sha1);
         let mut entries = Vec::with_capacity(K);
         let mut i = 0;
         while i < K {
-            kani::assume(l[i] >= 1 && l[i] <= 2 && valid_name(&n[i]));
-            entries.push(tree::EntryRef { mode: tree::EntryMode(m[i]), filename: n[i][..l[i]].as_bstr(), oid: &id });
+            kani::assume(l[i] >= 1 && l[i] <= 2 && valid_name(n.row(i)));
+            entries.push(tree::EntryRef { mode: tree::EntryMode(m[i]), filename: n.row(i)[..l[i]].as_bstr(), oid: &id });
             i += 1;
         }
         // canonical git order, strictly ascending, by the *model*
         i = 1;
         while i < K {
-            kani::assume(base_name_compare(&n[i - 1][..l[i - 1]], m[i - 1], &n[i][..l[i]], m[i]) == Ordering::Less);
+            kani::assume(base_name_compare(&n.row(i - 1)[..l[i - 1]], m[i - 1], &n.row(i)[..l[i]], m[i]) == Ordering::Less);
             i += 1;
         }
         let q: [u8; 2] = kani::any();
@@ -151,7 +173,7 @@ pub mod proofs {
         let mut found: Option<usize> = None;
         i = 0;
         while i < K {
-            if l[i] == ql && n[i][0] == q[0] && (ql == 1 || n[i][1] == q[1]) && s_isdir(m[i]) == is_dir {
+            if l[i] == ql && n.row(i)[0] == q[0] && (ql == 1 || n.row(i)[1] == q[1]) && s_isdir(m[i]) == is_dir {
                 found = Some(i);
             }
             i += 1;
@@ -166,7 +188,7 @@ pub mod proofs {
             (None, Some(_)) => assert!(false, "bisect missed an entry that a linear scan finds"),
         }
         kani::cover!(found.is_some() && is_dir, "directory found");
-        kani::cover!(found.is_some() && !is_dir && K > 1 && found != Some(0), "file found beyond the first slot");
+        kani::cover!(K == 1 || (found.is_some() && !is_dir && found != Some(0)), "file found beyond the first slot");
         kani::cover!(found.is_none(), "absent");
         std::mem::forget(t);
     }
